@@ -23,7 +23,7 @@ LEVEL_TEXT = {
     "C11": "The length axis 0..=300 (+1024, 4096) is enumerated completely for every type; constructor equivalences on the key alphabets.",
     "C12": "All construction/conversion/clone/drop histories up to the depth bound are explored (stateright BFS) on the real types in every native configuration, each live instance compared with the reference after every step.",
     "C14": "All bcrypt call histories up to the depth bound are explored (stateright BFS) on the real Blowfish state machine; the whole state is compared with the eksblowfish reference after every step.",
-    "C15": "All multi-instance call histories up to the depth bound (stateright BFS) and all thread interleavings of the detection-cache harnesses (loom, unbounded) are explored on the real code.",
+    "C15": "All multi-instance call histories up to the depth bound (stateright BFS) and all thread interleavings of the detection-cache harnesses (loom, unbounded) are explored on the real code; every ordered pair (key, neighbour key) of the declared neighbour set is driven through a fixed two-instance history against the model; no call writes the instance or static storage.",
     "C13": "The predicate model of the statement (AES upper half zero; NIST list modulo parity; part equality modulo parity) is compared with weak_key_test/new_checked on a key set containing every positive class and its one-bit neighbours.",
     "C16": "For every type, route and configuration the storage of the instance is observed before and after drop; all key-dependent live bytes must be zero.",
     "C17": "All hazmat calls over the alphabets (single and 8-way) run on every native implementation and on the FIPS-197 round model.",
